@@ -10,6 +10,7 @@ import Djc.Proofs.LeafSpec
 import Djc.Proofs.Slotty
 import Djc.Proofs.Filled
 import Djc.Spec.Render
+import Djc.Proofs.Stitch
 namespace Djc.Props.C01
 open Djc.Tpl Djc.Render Djc.Proofs.Render
 
@@ -411,5 +412,31 @@ def C01_full : Prop :=
     (renderNodes env fuel page (rootCtx vars)).run.run {} = (.ok toks, w) →
     ∃ toks' s, (Djc.SpecRender.sNodes env fuel page (.mk [[], vars] [] none [])).run {} = .ok (toks', s) ∧
       toks.length = toks'.length
+
+/-! ### the deferred queue composes the page in order, at any nesting depth -/
+
+/-- **The page is the in-order composition of the instances' outputs, at any nesting depth** (the clause of C01 about
+composition, for the model of the code, on trees of components without fills): `{% component %}` tags with empty bodies
+nested through templates to any depth, in loops, recursively.  `ComponentNode.render` returns a placeholder for every
+nested instance and queues a renderer; the `while` loop of `component_post_render` — a deque of (text-before, child,
+parent, grand-parent) items and a dict of partial outputs — puts each instance's tokens exactly where its tag stood:
+the result is `Exp [placeholder of the root]`, the recursive substitution of every placeholder by its instance's own
+output (`Djc.Proofs.Stitch.Exp`; `html` there *is* the output of rendering that instance's registered template in its
+renderer's context).  Proved for every fuel, library of the fragment, context and world by strong induction over the
+loop with a lemma for "the rest of one instance's content" (`Djc.Proofs.Stitch.seg`). -/
+theorem C01_full_partial_component_trees_compose_in_order (env : Env) (hlib : Djc.Proofs.Tree.GoodLib env) (fuel : Nat)
+    (name : Str) (kwargs : List (Str × Expr)) (only dyn : Bool) (ctx : Ctx) (w w' : World) (toks : List Tok)
+    (hd : isDynName name = false) (hc : Djc.Proofs.Plain.ctxFree ctx = true) (hw : Djc.Proofs.Tree.WInv w)
+    (hext : isExtracting ctx = false)
+    (hpar : Djc.Proofs.Tree.parentOf (if only || env.isolated then isolatedCopy ctx else ctx) = none)
+    (h : (renderCompTag env fuel name kwargs only dyn [] ctx).run.run w = (.ok toks, w')) :
+    Djc.Proofs.Stitch.Exp env [Tok.hole w.nextId []] toks :=
+  Djc.Proofs.Stitch.tree_root_output env hlib fuel name kwargs only dyn ctx w w' toks hd hc hw hext hpar h
+
+/-- instance (kernel-evaluated): the three-level library of `Djc/Proofs/Tree.lean` meets the hypotheses and its page is
+the expected in-order token list -/
+example : Djc.Proofs.Tree.GoodLib (Djc.Proofs.Tree.exEnv false) ∧ Djc.Proofs.Tree.WInv ({} : World) ∧
+    Djc.Proofs.Stitch.exOutputOk = true :=
+  ⟨Djc.Proofs.Tree.exEnv_good false, Djc.Proofs.Tree.empty_world_inv, by decide +kernel⟩
 
 end Djc.Props.C01
